@@ -46,6 +46,9 @@ const (
 
 // Exec is the symbolic executor.
 type Exec struct {
+	// NilPanics: a panicking opaque call may panic with the nil value (Go < 1.21
+	// semantics: recover() then returns nil). Off: A-panicnil.
+	NilPanics bool
 	Ctx       *Ctx
 	Prog      *ssa.Program
 	Specs     map[*ssa.Function]*FuncSpec
